@@ -304,6 +304,15 @@ where
             ..
         } = space_message;
 
+        // Promoting and demoting members is not supported in spaces yet (no events or encryption
+        // group changes are defined for it). A remote peer chose this action, reject it.
+        if matches!(
+            auth_message.action(),
+            AuthGroupAction::Promote { .. } | AuthGroupAction::Demote { .. }
+        ) {
+            return Err(SpaceError::UnsupportedAction(auth_message.id()));
+        }
+
         // Get space state and current members.
         let mut y = Self::get_or_init_state(self.id, *group_id, self.manager.clone()).await?;
 
@@ -814,4 +823,7 @@ where
 
     #[error("tried to publish when not a member of space {0}")]
     NotWelcomed(SpaceId),
+
+    #[error("auth message {0} contains an action which is not supported yet")]
+    UnsupportedAction(OperationId),
 }
